@@ -39,6 +39,11 @@ def scenarios(lengths):
            ref.server_frame(9, b'') + ref.server_frame(1, b''))
     out.append(('sequence: text, fragmented binary, binary, 70000-byte binary in 2 fragments, empty ping, empty text',
                 [('text', 'one'), ('ping', b'mid1'), ('pong', b'mid2'), ('binary', a), ('binary', b), ('binary', c), ('ping', b''), ('text', '')], seq))
+    # an EMPTY first fragment still opens the message and fixes its type; empty fragments everywhere
+    e1 = ref.server_frame(2, b'', fin=0) + ref.server_frame(0, b[:50], fin=0) + ref.server_frame(0, b'', fin=0) + ref.server_frame(0, b[50:], fin=1)
+    out.append(('binary whose first fragment is empty, then data, an empty fragment, data', [('binary', b)], e1))
+    e2 = ref.server_frame(1, b'', fin=0) + ref.server_frame(9, b'p') + ref.server_frame(0, tb, fin=0) + ref.server_frame(0, b'', fin=1) + ref.server_frame(2, b'after')
+    out.append(('text whose first and last fragments are empty, Ping after the first; then a binary message', [('ping', b'p'), ('text', text), ('binary', b'after')], e2))
     out.append(('close with code and reason', [('closing', (1000, 'bye é'))], ref.server_frame(8, struct.pack('!H', 1000) + 'bye é'.encode())))
     out.append(('close with empty payload', [('closing', (None, ''))], ref.server_frame(8, b'')))
     return out
